@@ -690,6 +690,76 @@ Proof.
   - destruct (step N ans l s) as [s1|] eqn:E; [|discriminate]. eapply IH; [|exact Hrun]. eapply stuckq_step; eauto.
 Qed.
 
+(* room: the queue can take everything that is still on its way through the input pipeline,
+   plus what Close itself will post *)
+Definition pending_main (ans : bool) (m : mpc) : nat :=
+  match m with
+  | MPostQuit => 1 + (if ans then 1 else 0)
+  | MSendClose _ | MWriteDA1 _ => if ans then 1 else 0
+  | _ => 0
+  end.
+Definition room (N : nat) (ans : bool) (s : state) : Prop :=
+  length (q s) + length (pipeline s) + pending_main ans (mp s) <= N.
+
+Lemma room_step : forall N ans l s s',
+  handshake l = true -> step N ans l s = Some s' ->
+  length (q s') + length (pipeline s') + pending_main ans (mp s')
+  <= length (q s) + length (pipeline s) + pending_main ans (mp s).
+Proof.
+  intros N ans l s s' Hh Hs. destruct s as [q0 d0 td hs ty inp0 pp0 cc cd sq sc ip0 mp0 sd].
+  unfold pipeline. destruct l; simpl in Hh; try discriminate; simpl in Hs.
+  - destruct mp0; try discriminate.
+    + injection Hs as <-. unfold full; simpl. destruct (Nat.leb N (length q0)); simpl; [lia|]. rewrite app_length; simpl; lia.
+    + destruct cc; [discriminate|]. injection Hs as <-; simpl; lia.
+    + injection Hs as <-; simpl. rewrite items_events_app, !app_length. destruct ans; simpl; lia.
+    + destruct cd; [|discriminate]. injection Hs as <-; simpl; lia.
+    + injection Hs as <-; simpl. destruct c; simpl; lia.
+  - destruct pp0; try discriminate.
+    + destruct cc; injection Hs as <-; simpl; lia.
+    + destruct inp0 as [|it r]; [discriminate|]. injection Hs as <-; simpl. unfold items_events; simpl.
+      rewrite !app_length. unfold item_events. lia.
+    + destruct l as [|x r]; [injection Hs as <-; simpl; lia|].
+      destruct (Nat.ltb (length sq) 2); [|discriminate]. injection Hs as <-; simpl.
+      rewrite seq_events_app. simpl. rewrite !app_length. simpl. lia.
+    + destruct (Nat.ltb (length sq) 2); [|discriminate]. injection Hs as <-; simpl.
+      rewrite seq_events_app. simpl. rewrite !app_length. simpl. lia.
+    + injection Hs as <-; simpl; lia.
+    + destruct cd; [discriminate|]. injection Hs as <-; simpl; lia.
+  - destruct ip0; try discriminate.
+    + destruct sq as [|[evs|] r]; [discriminate| |]; injection Hs as <-; simpl; rewrite ?app_length; lia.
+    + destruct l as [|x r]; [injection Hs as <-; simpl; lia|].
+      unfold full in Hs; simpl in Hs. destruct (Nat.leb N (length q0)); [discriminate|]. injection Hs as <-; simpl.
+      rewrite !app_length. simpl. lia.
+Qed.
+
+Lemma handshake_not_call : forall l, handshake l = true -> is_call l = false.
+Proof. destruct l; simpl; intros; congruence. Qed.
+
+(* With room, Close/Suspend DO reach their return label: a run of at most [rank s] handshake
+   steps exists from every reachable state inside a first shutdown. *)
+Theorem shutdown_can_return : forall N script s,
+  reachable N true script s -> in_shutdown (mp s) = true -> susp_done s = 0 -> room N true s ->
+  exists tr s', forallb handshake tr = true /\ run N true tr s = Some s' /\ returned (mp s') = true
+                /\ length tr <= rank s.
+Proof.
+  intros N script s. remember (rank s) as n eqn:En. assert (Hn : rank s <= n) by lia. clear En.
+  revert s Hn. induction n as [|n IH]; intros s Hn Hr Hsh Hsd Hroom.
+  - (* rank 0 is impossible inside a shutdown *)
+    exfalso. destruct s as [q0 d0 td hs ty inp0 pp0 cc cd sq sc ip0 mp0 sd]. unfold rank in Hn. simpl in *.
+    destruct mp0; simpl in *; try discriminate; lia.
+  - destruct (progress_inv N s (hinv_reachable _ _ _ _ Hr) Hsh Hsd) as [[l [Hh He]]|[Hfull [x [r Hip]]]].
+    + unfold enabled in He. destruct (step N true l s) as [s1|] eqn:E; [|discriminate].
+      pose proof (rank_step _ _ _ _ _ (handshake_not_call _ Hh) E) as Hrk. rewrite Hh in Hrk.
+      assert (Hlc : label_cost l = 0) by (destruct l; simpl in Hh; try discriminate; reflexivity). rewrite Hlc in Hrk.
+      destruct (shutdown_step _ _ _ _ _ Hsh Hsd E) as [[H1 H2]|H1].
+      * assert (Hroom1 : room N true s1).
+        { unfold room in *. pose proof (room_step _ _ _ _ _ Hh E). lia. }
+        destruct (IH s1 ltac:(lia) (reachable_step _ _ _ _ _ _ Hr E) H1 H2 Hroom1) as [tr [s' [Ht [Hrun [Hret Hlen]]]]].
+        exists (l :: tr), s'. simpl. rewrite Hh, E. repeat split; auto. lia.
+      * exists [l], s1. simpl. rewrite Hh, E. repeat split; auto. lia.
+    + exfalso. unfold room, pipeline in Hroom. rewrite Hip in Hroom. simpl in Hroom. lia.
+Qed.
+
 (* ---------- the decidable checkers mean what the theorems say ---------- *)
 Local Open Scope Z_scope.
 Lemma subseqb_sound : forall a b, subseqb a b = true -> Subseq a b.
